@@ -60,8 +60,9 @@ VARIABLES db,         \* the table
           inst,       \* the instance the application holds (or none)
           ok,         \* the last operation was applied (FALSE: its IF condition failed, LWTException)
           origin,     \* which initial history this behaviour started from
+          sane,       \* history variable: what the last step did was consistent (see SaveKeepsSync, RefusedChangesNothing)
           steps
-vars == <<db, inst, ok, origin, steps>>
+vars == <<db, inst, ok, origin, sane, steps>>
 
 -----------------------------------------------------------------------------
 \* Model R: partition key k (always 1), clustering key ck in CKs, a (stored as "aa"), b, static st, s set<int>,
@@ -407,13 +408,20 @@ Run(ops, S) == IF Len(ops) = 0 THEN S ELSE Run(Tail(ops), Effect(Head(ops), S))
 Init == \E i \in 1..Len(Inits) :
             LET S == Run(Inits[i], IF Mode = "row" THEN EmptyS ELSE CEmptyS) IN
             /\ db = S.db /\ inst = S.inst /\ ok = TRUE /\ origin = i /\ steps = 0
+            /\ sane = [refused |-> TRUE, sync |-> TRUE]
 
 Step(i) ==
     /\ i <= Len(Ops)
     /\ steps < MaxSteps
     /\ Enabled(Ops[i], State) = TRUE         \* "= TRUE": a plain predicate, TLC must not split its disjunctions into actions
-    /\ LET T == Effect(Ops[i], State) IN db' = T.db /\ inst' = T.inst
-    /\ ok' = WasApplied(Ops[i], State)
+    /\ LET op == Ops[i]
+           S == State
+           T == Effect(op, S)
+           applied == WasApplied(op, S)
+       IN /\ db' = T.db /\ inst' = T.inst
+          /\ ok' = applied
+          /\ sane' = [refused |-> applied \/ T = S,
+                      sync |-> (Mode = "row" /\ op.name = "isave" /\ InSync(S) /\ Visible(T.db.rows[T.inst.ck])) => InSync(T)]
     /\ origin' = origin
     /\ steps' = steps + 1
 
@@ -737,6 +745,123 @@ Op_317 == Step(317)
 Op_318 == Step(318)
 Op_319 == Step(319)
 Op_320 == Step(320)
+
+\* the same relation restricted to the first operations (cheaper for TLC when the alphabet is short)
+NextCounter ==
+    \/ Op_1
+    \/ Op_2
+    \/ Op_3
+    \/ Op_4
+    \/ Op_5
+    \/ Op_6
+    \/ Op_7
+    \/ Op_8
+    \/ Op_9
+    \/ Op_10
+    \/ Op_11
+    \/ Op_12
+    \/ Op_13
+    \/ Op_14
+    \/ Op_15
+    \/ Op_16
+
+NextNarrow ==
+    \/ Op_1
+    \/ Op_2
+    \/ Op_3
+    \/ Op_4
+    \/ Op_5
+    \/ Op_6
+    \/ Op_7
+    \/ Op_8
+    \/ Op_9
+    \/ Op_10
+    \/ Op_11
+    \/ Op_12
+    \/ Op_13
+    \/ Op_14
+    \/ Op_15
+    \/ Op_16
+    \/ Op_17
+    \/ Op_18
+    \/ Op_19
+    \/ Op_20
+    \/ Op_21
+    \/ Op_22
+    \/ Op_23
+    \/ Op_24
+    \/ Op_25
+    \/ Op_26
+    \/ Op_27
+    \/ Op_28
+    \/ Op_29
+    \/ Op_30
+    \/ Op_31
+    \/ Op_32
+    \/ Op_33
+    \/ Op_34
+    \/ Op_35
+    \/ Op_36
+    \/ Op_37
+    \/ Op_38
+    \/ Op_39
+    \/ Op_40
+    \/ Op_41
+    \/ Op_42
+    \/ Op_43
+    \/ Op_44
+    \/ Op_45
+    \/ Op_46
+    \/ Op_47
+    \/ Op_48
+    \/ Op_49
+    \/ Op_50
+    \/ Op_51
+    \/ Op_52
+    \/ Op_53
+    \/ Op_54
+    \/ Op_55
+    \/ Op_56
+    \/ Op_57
+    \/ Op_58
+    \/ Op_59
+    \/ Op_60
+    \/ Op_61
+    \/ Op_62
+    \/ Op_63
+    \/ Op_64
+    \/ Op_65
+    \/ Op_66
+    \/ Op_67
+    \/ Op_68
+    \/ Op_69
+    \/ Op_70
+    \/ Op_71
+    \/ Op_72
+    \/ Op_73
+    \/ Op_74
+    \/ Op_75
+    \/ Op_76
+    \/ Op_77
+    \/ Op_78
+    \/ Op_79
+    \/ Op_80
+    \/ Op_81
+    \/ Op_82
+    \/ Op_83
+    \/ Op_84
+    \/ Op_85
+    \/ Op_86
+    \/ Op_87
+    \/ Op_88
+    \/ Op_89
+    \/ Op_90
+    \/ Op_91
+    \/ Op_92
+    \/ Op_93
+    \/ Op_94
+    \/ Op_95
+    \/ Op_96
 
 Next ==
     \/ Op_1
@@ -1078,13 +1203,11 @@ TypeOK ==
 
 \* "reading the row back yields the instance's current values": an instance that agreed with its row still agrees
 \* with it after it was changed and saved (unless the save removed the last live cell of a row without marker: then
-\* there is no row to read)
-SaveKeepsSync ==
-    [][ (Mode = "row" /\ inst.has /\ InSync(State) /\ (\E i \in 1..Len(Ops) : Ops[i].name = "isave" /\ Step(i)))
-        => (Visible(db'.rows[inst'.ck]) => InSync([db |-> db', inst |-> inst'])) ]_vars
+\* there is no row to read).  Evaluated by Step on (state, successor) and carried in `sane`.
+SaveKeepsSync == sane.sync
 
 \* a refused conditional write changes nothing
-RefusedChangesNothing == [][ ~ok' => db' = db /\ inst' = inst ]_vars
+RefusedChangesNothing == sane.refused
 
 \* vacuity witnesses (expected to be VIOLATED; the first for both modes, then three for "row", one for "counter")
 Witness_SyncedAtTheEnd == ~(steps = MaxSteps /\ Synced)
